@@ -41,6 +41,30 @@ Definition b_p_varint (w : N) : P N :=
   else if t =? 253 then (if 8 <=? w then p_le 8 else pfail)
   else pfail.
 
+(* ---------- bincode 2, other configurations: big endian and / or fixed-width integers ---------- *)
+(* k big-endian bytes (of a value below 256^k) *)
+Fixpoint be_bytes (k : nat) (v : N) : bytes :=
+  match k with O => [] | S k' => (v / 256 ^ N.of_nat k') :: be_bytes k' (v mod 256 ^ N.of_nat k') end.
+Fixpoint p_be (k : nat) : P N :=
+  match k with
+  | O => pret 0
+  | S k' => hi <~ p_u8 ;; lo <~ p_be k' ;; pret (hi * 256 ^ N.of_nat k' + lo)
+  end.
+
+(* standard().with_big_endian(): the same markers, the payload big endian *)
+Definition b_varint_be (v : N) : bytes :=
+  if v <=? 250 then [v]
+  else if v <? 65536 then 251 :: be_bytes 2 v
+  else if v <? 4294967296 then 252 :: be_bytes 4 v
+  else 253 :: be_bytes 8 v.
+Definition b_p_varint_be (w : N) : P N :=
+  t <~ p_u8 ;;
+  if t <=? 250 then pret t
+  else if t =? 251 then p_be 2
+  else if t =? 252 then (if 4 <=? w then p_be 4 else pfail)
+  else if t =? 253 then (if 8 <=? w then p_be 8 else pfail)
+  else pfail.
+
 (* ---------- postcard 1: LEB128 with per-width byte limit and last-byte check ---------- *)
 Fixpoint leb (fuel : nat) (v : N) : bytes :=
   match fuel with
@@ -74,6 +98,20 @@ Definition bincode_fmt : fmt :=
   mkFmt b_varint (b_p_varint 2) b_varint (b_p_varint 4) b_varint (b_p_varint 8).
 Definition postcard_fmt : fmt :=
   mkFmt pc_u16 pc_p_u16 pc_u32 pc_p_u32 pc_u64 pc_p_u64.
+(* BincodeCodec is generic in the bincode configuration: big-endian varint, fixed-width little endian
+   (with_fixed_int_encoding(), legacy()), fixed-width big endian.  Enum variant indices are u32s in
+   the configured integer encoding, u8 is always one byte. *)
+Definition bincode_be_fmt : fmt :=
+  mkFmt b_varint_be (b_p_varint_be 2) b_varint_be (b_p_varint_be 4) b_varint_be (b_p_varint_be 8).
+Definition bincode_fixle_fmt : fmt :=
+  mkFmt (le_bytes 2) (p_le 2) (le_bytes 4) (p_le 4) (le_bytes 8) (p_le 8).
+Definition bincode_fixbe_fmt : fmt :=
+  mkFmt (be_bytes 2) (p_be 2) (be_bytes 4) (p_be 4) (be_bytes 8) (p_be 8).
+(* codec numbers of the driver protocol *)
+Definition fmt_of (c : N) : fmt :=
+  match c with
+  | 0 => bincode_fmt | 1 => postcard_fmt | 2 => bincode_be_fmt | 3 => bincode_fixle_fmt | _ => bincode_fixbe_fmt
+  end.
 
 Section Fmt.
 Variable F : fmt.
@@ -175,12 +213,12 @@ Definition s_msg (m : message sid) : list N :=
 Definition s_hdr (h : header sid) : list N := s_sid (h_src h) ++ [h_src_inc h] ++ s_sid (h_dst h) ++ s_msg (h_msg h).
 Definition s_mem (m : member sid) : list N := s_sid (m_id m) ++ [m_inc m; state_idx (m_state m)].
 
-(* decode request: [codec(0 bincode,1 postcard); what(0 header,1 member); bytes...]
+(* decode request: [codec(0 bincode standard,1 postcard,2 bincode big-endian,3 bincode fixed-int,4 bincode big-endian fixed-int); what(0 header,1 member); bytes...]
    answer: [0] on error, or 1 :: consumed :: value *)
 Definition run_decode (l : list N) : list N :=
   match l with
   | c :: w :: b =>
-      let F := if c =? 0 then bincode_fmt else postcard_fmt in
+      let F := fmt_of c in
       if w =? 0 then
         match s_p_hdr F b with
         | Some (h, r) => 1 :: (len b - len r) :: s_hdr h
@@ -211,9 +249,9 @@ Definition g_msg (l : list N) : option (message sid) :=
 Definition run_encode (l : list N) : list N :=
   match l with
   | c :: w :: room :: v =>
-      let F := if c =? 0 then bincode_fmt else postcard_fmt in
+      let F := fmt_of c in
       let out (total : bytes) (cs : list bytes) :=
-        let written := if c =? 0 then bincode_written total room else postcard_written cs room in
+        let written := if c =? 1 then postcard_written cs room else bincode_written total room in
         (if len total <=? room then 1 else 0) :: written :: firstn (N.to_nat written) total in
       if w =? 0 then
         match g_sid v with
